@@ -17,6 +17,7 @@ import (
 	"github.com/paulsonkoly/chess-3/stack"
 
 	"verifharness/hx"
+	"verifharness/posgen"
 )
 
 // Property C16.
@@ -26,7 +27,9 @@ import (
 // stack, seed of the ranker pre-drive). Run re-observes all of it and drains the real picker; the
 // model reproduces the yielded sequence from the observed part alone.
 //
-//	in : base hm ipl nN {m w attacker victim}*nN nQ {m w}*nQ nP {flag v}*nP | L fen[L] K {piece to score}*K seed rounds
+//	in : base hm ipl nN {m w attacker victim}*nN nQ {m w}*nQ nP {flag v}*nP | L fen[L] K {piece to score}*K seed rounds stale
+//	     (stale != 0: the move store is a USED one - every slot of its data array, below and above the
+//	     picker's frame, holds a stale move and an adversarial stale weight derived from the seed stale)
 //	     (the k-th yielded entry's Weight is overwritten with v, as the search does, when flag k is set)
 //	out: ipl nN {m w}*nN nQ {m w}*nQ intact allocAfterPop nY {m w}*nY
 //
@@ -228,6 +231,58 @@ type c16pCase struct {
 	stk    []heur.StackMove
 	seed   uint64
 	rounds int
+	stale  uint64
+}
+
+// c16UsedStore returns a move store all of whose slots were written before: stale moves and
+// adversarial stale weights (the duplicate sentinel, the yieldRest threshold, the band edges ...),
+// as in a search where the store is shared by all plies and Clear / Pop only move indices.
+// Public API only: StoreSize Allocs, weights written through the returned pointers, Clear.
+func c16UsedStore(stale uint64, hm move.Move) *move.Store {
+	ms := move.NewStore()
+	if stale == 0 {
+		return ms
+	}
+	rng := hx.NewRng(stale)
+	mode := rng.Intn(5)
+	vals := []Score{-heur.HashMove, -heur.HashMove + 1, -heur.HashMove + 2, heur.HashMove, heur.HashMove - 1,
+		heur.Captures, heur.Captures - 1, heur.Captures + heur.CaptureRange - 1, -heur.Captures, -heur.Captures - 1,
+		-heur.Captures - heur.CaptureRange, 3 * heur.MaxHistory, -3 * heur.MaxHistory, 32767, -32768, 1, -1}
+	ms.Push()
+	for i := 0; i < move.StoreSize; i++ {
+		m := move.Move(rng.Intn(1 << 15))
+		if rng.Intn(8) == 0 {
+			m = hm
+		}
+		w := ms.Alloc(m)
+		switch mode {
+		case 0:
+			w.Weight = -heur.HashMove
+		case 1:
+			w.Weight = -heur.HashMove + 1
+		case 2:
+			if rng.Bool() {
+				w.Weight = -heur.HashMove
+			} else {
+				w.Weight = vals[rng.Intn(len(vals))]
+			}
+		case 3:
+			w.Weight = vals[rng.Intn(len(vals))]
+		default:
+			w.Weight = Score(rng.Range(-32768, 32767))
+		}
+	}
+	ms.Clear()
+	return ms
+}
+
+// c16StaleSeed returns a stale-store seed whose fill mode is mode.
+func c16StaleSeed(mode int) uint64 {
+	for sd := uint64(1); ; sd++ {
+		if hx.NewRng(sd).Intn(5) == mode {
+			return sd
+		}
+	}
 }
 
 func c16pSetup(c c16pCase) (*board.Board, *stack.Stack[heur.StackMove], *heur.MoveRanker) {
@@ -273,7 +328,7 @@ func c16pInput(c c16pCase, o c16pObs) string {
 	for _, s := range c.stk {
 		n.U(uint64(s.Piece)).I(int64(s.To), int64(s.Score))
 	}
-	n.U(c.seed).Int(c.rounds)
+	n.U(c.seed).Int(c.rounds).U(c.stale)
 	return n.String()
 }
 
@@ -304,6 +359,7 @@ func c16pParse(a hx.Args) c16pCase {
 	c.seed = a.U64(p)
 	p++
 	c.rounds = int(next())
+	c.stale = a.U64(p)
 	return c
 }
 
@@ -312,7 +368,7 @@ func runC16p(a hx.Args) string {
 	b, st, mr := c16pSetup(c)
 	o := c16pObserve(c, b, st, mr)
 
-	ms := move.NewStore()
+	ms := c16UsedStore(c.stale, c.hm)
 	ms.Push()
 	for i := 0; i < c.base; i++ {
 		w := ms.Alloc(move.Move(i*7 + 1))
@@ -375,6 +431,29 @@ func c16pEmit(c c16pCase, kind string, emit func(hx.Input)) {
 	if len(c.pokes) > 0 {
 		tags = append(tags, "search-writes-weights")
 	}
+	if c.stale != 0 {
+		tags = append(tags, "used-store")
+	}
+	if len(o.quiet) <= 2 {
+		tags = append(tags, fmt.Sprintf("quiet=%d", len(o.quiet)))
+	}
+	pending, good := false, false
+	for _, w := range o.noisy {
+		if w.Weight < 0 {
+			pending = true
+		} else {
+			good = true
+		}
+	}
+	if pending {
+		tags = append(tags, "bad-captures-pending")
+		if len(o.quiet) <= 2 {
+			tags = append(tags, fmt.Sprintf("quiet=%d+bad-captures-pending", len(o.quiet)))
+		}
+	}
+	if good && len(o.quiet) <= 2 {
+		tags = append(tags, fmt.Sprintf("quiet=%d+good-captures", len(o.quiet)))
+	}
 	if c.base+1+total > move.StoreSize {
 		tags = append(tags, "store-overflow")
 	}
@@ -383,11 +462,11 @@ func c16pEmit(c c16pCase, kind string, emit func(hx.Input)) {
 	}
 	emit(hx.Input{
 		In: c16pInput(c, o),
-		Desc: fmt.Sprintf("fen=%q hash=%s(0x%04x) kind=%s ipl=%v base=%d stack=%v drive=(seed %d, rounds %d) moves=%d+%d",
-			c.fen, c16MoveStr(c.hm), uint16(c.hm), kind, o.ipl, c.base, c.stk, c.seed, c.rounds, len(o.noisy), len(o.quiet)),
+		Desc: fmt.Sprintf("fen=%q hash=%s(0x%04x) kind=%s ipl=%v base=%d stack=%v drive=(seed %d, rounds %d) stale-store=%d moves=%d+%d",
+			c.fen, c16MoveStr(c.hm), uint16(c.hm), kind, o.ipl, c.base, c.stk, c.seed, c.rounds, c.stale, len(o.noisy), len(o.quiet)),
 		Tags:       tags,
 		NonTrivial: total > 0,
-		Key:        fmt.Sprintf("%s|%d|%d|%d|%d", c.fen, c.hm, c.seed, c.rounds, c.base),
+		Key:        fmt.Sprintf("%s|%d|%d|%d|%d|%d", c.fen, c.hm, c.seed, c.rounds, c.base, c.stale),
 	})
 }
 
@@ -410,6 +489,27 @@ func genC16p(rng *hx.Rng, n int, tier string, emit func(hx.Input)) {
 	} {
 		out(c16pCase{hm: hm, fen: StartPosFEN}, "f1-startpos")
 	}
+	// hand-made positions without / with a single quiet move (the only legal move is a losing capture,
+	// resp. the lone quiet move), on a fresh store and on used stores full of duplicate sentinels
+	for _, fen := range []string{
+		"7k/8/8/8/n2r4/p7/Prpn4/KB6 w - - 0 1",
+		"7k/8/8/8/8/1q6/nPp5/KRn5 w - - 0 1",
+		"kb6/pRPN4/P7/N2R4/8/8/8/7K b - - 0 1",
+		"7k/8/8/8/8/2P5/nr1r4/Kn6 w - - 0 1",
+		"7k/8/8/8/8/1pp5/nP6/K7 w - - 0 1",
+	} {
+		b := Must(board.FromFEN(fen))
+		noisy, _ := c16Generated(b)
+		hms := []move.Move{0}
+		if len(noisy) > 0 {
+			hms = append(hms, noisy[0])
+		}
+		for _, hm := range hms {
+			for _, stale := range []uint64{0, c16StaleSeed(0), c16StaleSeed(1), c16StaleSeed(2)} {
+				out(c16pCase{hm: hm, fen: fen, stale: stale}, "few-quiet-hand")
+			}
+		}
+	}
 	for pos := 0; cnt < n; pos++ {
 		root := roots[pos%len(roots)]
 		plies := 0
@@ -422,6 +522,12 @@ func genC16p(rng *hx.Rng, n int, tier string, emit func(hx.Input)) {
 			plies = rng.Intn(3)
 		}
 		b, hist := c16Playout(rng, root, plies)
+		if pos%3 == 2 {
+			// positions with 0, 1 or 2 quiet pseudo-legal moves (random play never produces them)
+			if fb := c16FewQuiet(rng, []int{0, 1, 0, 1, 2}[rng.Intn(5)]); fb != nil {
+				b, hist = fb, nil
+			}
+		}
 		fen := c16Fen(b)
 		noisy, quiet := c16Generated(b)
 		all := append(append([]move.Move{}, noisy...), quiet...)
@@ -456,6 +562,9 @@ func genC16p(rng *hx.Rng, n int, tier string, emit func(hx.Input)) {
 		mk := func(hm move.Move, kind string) {
 			c := base
 			c.hm = hm
+			if rng.Intn(4) != 0 { // a used store is the normal case inside the engine
+				c.stale = 1 + rng.U64()>>1
+			}
 			switch rng.Intn(36) {
 			case 0, 1, 2:
 				c.base = rng.Intn(40)
@@ -840,4 +949,180 @@ func genC16h(rng *hx.Rng, n int, tier string, emit func(hx.Input)) {
 		}
 		emit(hx.Input{In: in, Desc: desc, Tags: tags, NonTrivial: true})
 	}
+}
+
+// ---------------------------------------------------------------------------------------------
+// positions with few quiet moves
+
+func c16BoardOf(sq *[64]byte, stm Color) *board.Board {
+	var sb strings.Builder
+	for r := 7; r >= 0; r-- {
+		empty := 0
+		for f := 0; f < 8; f++ {
+			c := sq[r*8+f]
+			if c == 0 {
+				empty++
+				continue
+			}
+			if empty > 0 {
+				sb.WriteByte(byte('0' + empty))
+				empty = 0
+			}
+			sb.WriteByte(c)
+		}
+		if empty > 0 {
+			sb.WriteByte(byte('0' + empty))
+		}
+		if r > 0 {
+			sb.WriteByte('/')
+		}
+	}
+	if stm == White {
+		sb.WriteString(" w - - 0 1")
+	} else {
+		sb.WriteString(" b - - 0 1")
+	}
+	b, err := board.FromFEN(sb.String())
+	if err != nil || !posgen.Valid(b) {
+		return nil
+	}
+	return b
+}
+
+// c16Constructed builds a position whose side to move has exactly want quiet pseudo-legal moves:
+// a king walled in at a corner or an edge by own blocked men and by enemy men (so that captures,
+// winning and losing ones, exist), then every remaining quiet move is blocked at its target.
+func c16Constructed(rng *hx.Rng, want int) *board.Board {
+	for try := 0; try < 60; try++ {
+		var sq [64]byte
+		stm := Color(rng.Intn(2))
+		own := func(c byte) byte {
+			if stm == White {
+				return c - 32
+			}
+			return c
+		}
+		opp := func(c byte) byte {
+			if stm == White {
+				return c
+			}
+			return c - 32
+		}
+		isPawn := func(c byte) bool { return c == 'p' || c == 'P' }
+		put := func(s int, c byte) bool {
+			if s < 0 || s > 63 || sq[s] != 0 || (isPawn(c) && (s < 8 || s >= 56)) {
+				return false
+			}
+			sq[s] = c
+			return true
+		}
+		var k int
+		switch rng.Intn(10) {
+		case 0, 1, 2, 3, 4, 5:
+			k = []int{0, 7, 56, 63}[rng.Intn(4)]
+		case 6, 7, 8:
+			if rng.Bool() {
+				k = rng.Intn(8) + 56*rng.Intn(2)
+			} else {
+				k = 8*rng.Intn(8) + 7*rng.Intn(2)
+			}
+		default:
+			k = rng.Intn(64)
+		}
+		put(k, own('k'))
+		for t := 0; t < 50; t++ {
+			s := rng.Intn(64)
+			df, dr := s%8-k%8, s/8-k/8
+			if df*df <= 4 && dr*dr <= 4 {
+				continue
+			}
+			put(s, opp('k'))
+			break
+		}
+		for r := -1; r <= 1; r++ {
+			for f := -1; f <= 1; f++ {
+				kf, kr := k%8+f, k/8+r
+				if (f == 0 && r == 0) || kf < 0 || kf > 7 || kr < 0 || kr > 7 {
+					continue
+				}
+				switch x := rng.Intn(20); {
+				case x < 9:
+					put(kr*8+kf, opp("ppnnbrq"[rng.Intn(7)]))
+				case x < 17:
+					put(kr*8+kf, own("pppnb"[rng.Intn(5)]))
+				}
+			}
+		}
+		// defenders (enemy) and bystanders (own) near the king
+		for i := rng.Intn(5); i > 0; i-- {
+			s := (k/8+rng.Intn(7)-3)*8 + k%8 + rng.Intn(7) - 3
+			if rng.Intn(3) > 0 {
+				put(s, opp("ppnbrq"[rng.Intn(6)]))
+			} else {
+				put(s, own("ppnb"[rng.Intn(4)]))
+			}
+		}
+		// block the remaining quiet moves at their targets
+		ok := false
+		for it := 0; it < 24; it++ {
+			b := c16BoardOf(&sq, stm)
+			if b == nil {
+				break
+			}
+			_, quiet := c16Generated(b)
+			if len(quiet) == want {
+				ok = true
+				break
+			}
+			if len(quiet) < want {
+				break
+			}
+			t := int(quiet[rng.Intn(len(quiet))].To())
+			placed := false
+			for a := 0; a < 6 && !placed; a++ {
+				var c byte
+				if rng.Intn(5) < 3 {
+					c = opp("ppnnbrq"[rng.Intn(7)])
+				} else {
+					c = own("pppnb"[rng.Intn(5)])
+				}
+				if put(t, c) {
+					if c16BoardOf(&sq, stm) != nil {
+						placed = true
+					} else {
+						sq[t] = 0
+					}
+				}
+			}
+			if !placed {
+				break
+			}
+		}
+		if ok {
+			return c16BoardOf(&sq, stm)
+		}
+	}
+	return nil
+}
+
+// c16FewQuiet: constructed positions, or the themed / en-passant generators of harness/posgen
+// filtered by the number of quiet moves.
+func c16FewQuiet(rng *hx.Rng, want int) *board.Board {
+	if rng.Intn(4) == 0 {
+		for try := 0; try < 300; try++ {
+			var p *posgen.Pos
+			if rng.Bool() {
+				p = posgen.Themed(rng)
+			} else {
+				p = posgen.EPOnly(rng)
+			}
+			if p == nil {
+				continue
+			}
+			if _, quiet := c16Generated(p.B); len(quiet) <= 2 {
+				return p.B
+			}
+		}
+	}
+	return c16Constructed(rng, want)
 }
